@@ -202,6 +202,13 @@ func runC03(c *core.Ctx) {
 					c.Shape("func-fopts-rejected", ln)
 					continue
 				}
+				if err != nil && up && afd {
+					// the AFCntDown variant belongs to downlinks; asking for it on an uplink has no keystream in
+					// the specification, so an error is as good as the library's answer (which is checked below
+					// against the formula with exactly these parameters when there is one)
+					c.Count("func-fopts.afcntdown-on-uplink-refused", 1)
+					continue
+				}
 				if err != nil {
 					c.Violate("C03|func|EncryptFOpts|failed", "len=%d: %v", ln, err)
 					continue
